@@ -70,7 +70,7 @@ func init() {
 func genCases(seed int64, tier string) []core.Case {
 	ncases, per := 96, 60
 	if tier == "thorough" {
-		ncases, per = 1600, 180
+		ncases, per = 800, 150
 	}
 	rng := rand.New(rand.NewSource(seed*104729 + 18))
 	out := make([]core.Case, 0, ncases)
@@ -557,7 +557,9 @@ func oneIndex(res *core.Result, rng *rand.Rand, sp indexSpec, dir string, j int,
 	}
 	defer os.Remove(file)
 	bad := sp.badKinds()
-	fileDetail := func() string { return fmt.Sprintf("index #%d (%s, %s): %s", j+1, sp.Format, bad, trunc(string(data), 1500)) }
+	fileDetail := func() string {
+		return fmt.Sprintf("index #%d (%s, %s): %s", j+1, sp.Format, bad, trunc(string(data), 1500))
+	}
 	if verbose {
 		fmt.Printf("---- index #%d format=%s bad=%s\n%s\n", j+1, sp.Format, bad, data)
 	}
